@@ -491,7 +491,8 @@ def check_C01(sc, v, tier, seed, replay):
         opts = {"mnc_len": 2 + i % 2, "use_opc": i % 2 == 0, "gnb_bits": [22, 24, 27, 32, 25, 31][i % 6], "name_len": [7, 1, 150, 2, 75][i % 5],
                 "imsi_len": [15, 15, 13, 14, 12, 11][i % 6],      # MSIN lengths 10, 9, 8, 8, 7, 5: odd and even digit counts
                 "big_amf_id": i % 3 == 0,                         # an AMF-UE-NGAP-ID that needs five octets
-                "free_msin": i % 2 == 0}                          # subscriber blocks that cross a multiple of 10^4
+                "free_msin": i % 2 == 0,                          # subscriber blocks that cross a multiple of 10^4
+                "lead0": i % 3 == 1}                              # K / OP / OPc whose text begins with zero digits
         scn, text = online.make_scenario(rnd, counts, opts=opts)
         jobs.append(("reg%02d" % i, scn, text))
     runs = online.run_many(sc, emu, jobs, parallel=8)
@@ -912,7 +913,7 @@ def check_C18(sc, v, tier, seed, replay):
     jobs = []
     for i in range(2 if tier == "quick" else 12):
         counts = {"reg": 1 + i % 2, "pdu": 1, "svc": i % 2, "rel": 1 - i % 2, "dereg": 1}
-        s2, t2 = online.make_scenario(rnd, counts)
+        s2, t2 = online.make_scenario(rnd, counts, opts={"lead0": i % 2 == 0})
         jobs.append(("wire%02d" % i, s2, t2))
     runs = online.run_many(sc, emu, jobs, parallel=8)
     _online_collect(v, runs, "C18", sc)
